@@ -450,6 +450,16 @@ def _subscribe_rules(ctx, cls, ent, accept, reject, w):
                 continue
             names = [n.strip(" ()") for n in str(e.a.get("target") or "").split(",")]
             qv = ("unk", "unpack:%s" % names[1]) if len(names) == 2 else None
+            if qv is None and len(names) == 1:
+                # for pair in topics: topic, qos = pair   - the element unpacked by the first statement that mentions it
+                import ast as _ast
+                ln = getattr(e, "node", None)
+                for st_ in (ln.body if isinstance(ln, (_ast.For, _ast.While)) else []):
+                    if isinstance(st_, _ast.Assign) and len(st_.targets) == 1 and isinstance(st_.targets[0], (_ast.Tuple, _ast.List)) \
+                            and len(st_.targets[0].elts) == 2 and all(isinstance(x, _ast.Name) for x in st_.targets[0].elts) \
+                            and isinstance(st_.value, _ast.Name) and st_.value.id == names[0]:
+                        qv = ("unk", "unpack:%s" % st_.targets[0].elts[1].id)
+                        break
             conts = [bp for bp in e.a["body"] if bp.exit_kind() in ("fall", "continue") and bp.st is not None]
             if qv is not None and conts:
                 found = True
